@@ -1,6 +1,6 @@
 (** C05 - a failed training run raises in bounded time and never returns weights. *)
 From Coq Require Import List Bool Arith ZArith.
-From PV Require Import BinFmt Store RWSpec RWExec RWProofs RWMain Proto ProtoProofs Faults FaultsProofs.
+From PV Require Import BinFmt Store RWSpec RWExec RWProofs RWMain Sched QueueProofs QueueTrace QueueFaults Proto ProtoProofs Faults FaultsProofs.
 Import ListNotations.
 Open Scope nat_scope.
 
@@ -53,6 +53,49 @@ Theorem C05_thread_errors_raised : forall workers,
   (exists e, In (Some e) workers) <-> exists e, join_workers true workers = Some e.
 Proof. exact thread_errors_raised. Qed.
 Print Assumptions C05_thread_errors_raised.
+
+(** the same operationally (QueueFaults.fstep: the worker threads of C02 when an atomic action may raise;
+    the thread that meets the exception records it and ends, the others go on, the call raises the
+    first recorded error after the join).  For every number of threads, every set of failing actions and
+    EVERY schedule: when all threads have ended the call returns normally only if every action of every
+    work item was performed and none of them raises ... *)
+Theorem C05_threading_returns_only_if_no_failure :
+  forall (A : Type) (seqs : list (list A)) (fails : nat -> nat -> bool) n sched, 1 <= n ->
+  let s := frun seqs fails sched (finit (seq 0 (length seqs)) n) in
+  f_all_done s = true -> call_raises s = None ->
+  interleaving seqs (wtrace (ws s)) /\
+  (forall i k, i < length seqs -> k < length (nth i seqs []) -> fails i k = false).
+Proof. exact @returns_only_if_no_failure. Qed.
+Print Assumptions C05_threading_returns_only_if_no_failure.
+
+(** ... so a failure in any action of any work item makes the finished call raise ... *)
+Theorem C05_threading_failure_raises :
+  forall (A : Type) (seqs : list (list A)) (fails : nat -> nat -> bool) n sched i k, 1 <= n ->
+  i < length seqs -> k < length (nth i seqs []) -> fails i k = true ->
+  let s := frun seqs fails sched (finit (seq 0 (length seqs)) n) in
+  f_all_done s = true -> exists j, call_raises s = Some j.
+Proof. exact @failure_raises. Qed.
+Print Assumptions C05_threading_failure_raises.
+
+(** ... and the call never blocks: at most 5*items + 4*threads + (number of actions) steps change the
+    state, and while a thread has neither left the loop nor died some live thread can make such a step *)
+Theorem C05_threading_faults_terminate :
+  forall (A : Type) (seqs : list (list A)) (fails : nat -> nat -> bool) items n sched, NoDup items ->
+  let s := frun seqs fails sched (finit items n) in
+  feffective seqs fails items n sched (finit items n) <= 5 * length items + 4 * n + QueueTrace.total seqs items /\
+  (f_all_done s = false -> exists t, fphi seqs items n (fstep seqs fails s t) < fphi seqs items n s).
+Proof. exact @fworker_terminates. Qed.
+Print Assumptions C05_threading_faults_terminate.
+
+(** non-vacuity: two threads, three items of two actions, the first action of item 1 raises: the thread
+    that took item 1 dies, the other one finishes items 0 and 2, the call raises the error of item 1 *)
+Example C05_threading_run_raises :
+  let seqs := [[10; 11]; [20; 21]; [30; 31]] in
+  let fails := fun i k => Nat.eqb i 1 && Nat.eqb k 0 in
+  let s := frun seqs fails (concat (repeat [0; 1] 30)) (finit (seq 0 (length seqs)) 2) in
+  f_all_done s = true /\ call_raises s = Some 1 /\ dead s = [1] /\
+  map fst (wtrace (ws s)) = [0; 0; 2; 2] /\ finished (qs (ws s)) = [0; 2].
+Proof. vm_compute. repeat split; reflexivity. Qed.
 
 (** before the repair (finding F3) they were dropped and untrained weights returned *)
 Theorem C05_thread_errors_swallowed_refuted :
